@@ -36,6 +36,10 @@ import (
 type MuxProfile struct {
 	Name string
 	RPCs bool // C11: issue RPCs at quiescent points and judge them
+	// Race (C11): the peer stops accepting as soon as a session is up, and session kills are
+	// aimed at sessions that have just come up - so that a removal racing the announcement of
+	// the addition leaves its mark on the endpoint set until the end of the chaos phase.
+	Race bool
 }
 
 type MuxConfig struct {
@@ -65,6 +69,7 @@ type peerSess struct {
 	tag    string
 	closed bool
 	served int
+	bornAt int // decision at which the peer side of the session came up
 }
 
 type rpcRec struct {
@@ -104,8 +109,10 @@ type MuxWorld struct {
 	maxSeen    int
 	served     map[string]int
 	rpcOK      int
+	fairStart  time.Duration
 	noHeal     bool // C11 shrinking-set phase: the peer neither accepts nor dials
 	stalled    []*simnet.Pair
+	dirty      map[int]bool // connections that were ever partitioned, black-holed or write-stalled
 }
 
 func (w *MuxWorld) violate(prop, clause, format string, args ...any) {
@@ -125,6 +132,12 @@ func NewMuxWorld(s *simrt.Sim, prof MuxProfile) (*MuxWorld, error) {
 	c.Budget = []int{300, 150, 600}[s.Draw(3)]
 	c.Faults = s.Draw(6)
 	c.Shutdown = !prof.RPCs && s.Draw(3) == 2
+	if prof.Race {
+		c.Role = "client"
+		c.Faults = 3 + s.Draw(6)
+		c.PKeep = []int{70, 50, 30}[s.Draw(3)]
+		c.Shutdown = false
+	}
 	w.cfg = c
 	s.SetPKeep(c.PKeep)
 	w.faultsLeft = c.Faults
@@ -180,7 +193,7 @@ func (w *MuxWorld) addPeerSession(conn *simnet.Conn, pair *simnet.Pair, client b
 		_ = conn.Close()
 		return
 	}
-	ps := &peerSess{idx: len(w.peers) + 1, pair: pair, conn: conn, sess: sess, tag: fmt.Sprintf("peer-sess-%d", pair.ID)}
+	ps := &peerSess{idx: len(w.peers) + 1, pair: pair, conn: conn, sess: sess, tag: fmt.Sprintf("peer-sess-%d", pair.ID), bornAt: w.s.Stats.Decisions}
 	ps.srv = grpc.NewServer()
 	adminservice.RegisterAdminServiceServer(ps.srv, &echoAdmin{tag: ps.tag})
 	go func() { _ = ps.srv.Serve(sess) }()
@@ -257,6 +270,28 @@ func (w *MuxWorld) fault(kind string) {
 	w.faults[kind]++
 }
 
+func (w *MuxWorld) markDirty(p *simnet.Pair) {
+	if w.dirty == nil {
+		w.dirty = map[int]bool{}
+	}
+	w.dirty[p.ID] = true
+}
+
+// allClean reports whether none of the live sessions' connections was ever disturbed below
+// the session level: a session over a connection that was black-holed or stalled may be
+// registered and open while its transport is still recovering (yamux notices through its
+// keep-alive only), so calls through it may legitimately fail for a while.
+func (w *MuxWorld) allClean(live []string, tags map[string]string) bool {
+	for _, id := range live {
+		for _, p := range w.net.Pairs() {
+			if tags[id] == fmt.Sprintf("peer-sess-%d", p.ID) && w.dirty[p.ID] {
+				return false
+			}
+		}
+	}
+	return true
+}
+
 func (w *MuxWorld) issueRPC() {
 	_, live, _ := w.proxySessions()
 	r := &rpcRec{id: len(w.rpcs) + 1, issuedAt: w.s.Now(), liveAt: live}
@@ -293,6 +328,9 @@ func (w *MuxWorld) Actions() []simrt.Action {
 			}
 			conn := c.(*simnet.Conn)
 			w.addPeerSession(conn, w.pairOf(conn), false)
+			if w.prof.Race {
+				w.net.SetRefuse(w.peerAddr, true)
+			}
 		})
 		if faultsOK {
 			add("FAULT peer-accept-and-close", 2, true, func() {
@@ -307,6 +345,7 @@ func (w *MuxWorld) Actions() []simrt.Action {
 				if c, err := w.peerLis.Accept(); err == nil {
 					pr := w.pairOf(c.(*simnet.Conn))
 					pr.StallWrites(pr.Dialer, true)
+					w.markDirty(pr)
 					w.stalled = append(w.stalled, pr)
 					w.addPeerSession(c.(*simnet.Conn), pr, false)
 				}
@@ -315,6 +354,7 @@ func (w *MuxWorld) Actions() []simrt.Action {
 				w.fault("accept-blackhole")
 				if c, err := w.peerLis.Accept(); err == nil {
 					w.pairOf(c.(*simnet.Conn)).Partition(true)
+					w.markDirty(w.pairOf(c.(*simnet.Conn)))
 					w.addPeerSession(c.(*simnet.Conn), w.pairOf(c.(*simnet.Conn)), false)
 				}
 			})
@@ -326,7 +366,11 @@ func (w *MuxWorld) Actions() []simrt.Action {
 		}
 	}
 	if w.net.Refuse[w.peerAddr] && !w.noHeal {
-		add("accept-dials-again", 3, false, func() { w.net.SetRefuse(w.peerAddr, false) })
+		wt := 3
+		if w.prof.Race {
+			wt = 1
+		}
+		add("accept-dials-again", wt, false, func() { w.net.SetRefuse(w.peerAddr, false) })
 	}
 	// receiver role: the peer dials while the proxy can take more
 	if w.cfg.Role == "server" && !w.shutDown && w.phase < 2 && !w.noHeal {
@@ -350,6 +394,7 @@ func (w *MuxWorld) Actions() []simrt.Action {
 					if c, err := w.net.Dial(w.proxyAddr); err == nil {
 						pr := w.pairOf(c)
 						pr.StallWrites(pr.Acceptor, true)
+						w.markDirty(pr)
 						w.stalled = append(w.stalled, pr)
 						w.addPeerSession(c, pr, true)
 					}
@@ -367,9 +412,18 @@ func (w *MuxWorld) Actions() []simrt.Action {
 	if faultsOK {
 		for _, p := range w.livePeers() {
 			p := p
-			add("FAULT peer-close-session:"+p.tag, 2, true, func() { w.fault("peer-close"); p.closed = true; _ = p.sess.Close() })
-			add("FAULT conn-reset:"+p.tag, 1, true, func() { w.fault("conn-reset"); p.pair.Reset() })
-			add("FAULT partition:"+p.tag, 1, true, func() { w.fault("partition"); p.pair.Partition(true) })
+			// faults are biased to land right after a membership change: a session that has just
+			// come up is being pinged / registered / announced to the listeners right now
+			boost := 1
+			if w.s.Stats.Decisions-p.bornAt < 60 {
+				boost = 8
+				if w.prof.Race {
+					boost = 20
+				}
+			}
+			add("FAULT peer-close-session:"+p.tag, 2*boost, true, func() { w.fault("peer-close"); p.closed = true; _ = p.sess.Close() })
+			add("FAULT conn-reset:"+p.tag, boost, true, func() { w.fault("conn-reset"); p.pair.Reset() })
+			add("FAULT partition:"+p.tag, 1, true, func() { w.fault("partition"); w.markDirty(p.pair); p.pair.Partition(true) })
 		}
 		ss := mux.VsimSessions(w.mgr)
 		for _, id := range mux.VsimSessionIDs(w.mgr) {
@@ -424,7 +478,13 @@ func (w *MuxWorld) judgeRPCs() {
 			continue
 		}
 		if !r.done {
-			if w.s.Now()-r.issuedAt > 8*time.Second {
+			ref := r.issuedAt
+			if w.fairStart > ref {
+				ref = w.fairStart
+			}
+			// time bounds are judged under the fair schedule only (the chaos scheduler may itself
+			// let time pass while the task that would complete the call is ready)
+			if w.phase > 0 && w.s.Now()-ref > 8*time.Second {
 				r.judged = true
 				w.violate("C11", "rpc-hang", "rpc #%d has not returned %v after it was issued with a 5 s deadline", r.id, w.s.Now()-r.issuedAt)
 			}
@@ -487,6 +547,9 @@ func RunMux(s *simrt.Sim, prof MuxProfile) *Result {
 			nf += v
 		}
 		res.Nontrivial = w.maxSeen > 0 && (prof.RPCs && w.rpcOK > 0 || !prof.RPCs && nf > 0)
+		if prof.Race {
+			res.Nontrivial = w.maxSeen > 0 && nf > 0
+		}
 		res.Notes = map[string]string{"max_sessions": fmt.Sprint(w.maxSeen), "rpcs_ok": fmt.Sprint(w.rpcOK), "served": fmt.Sprint(w.served)}
 		return res
 	}
@@ -495,7 +558,17 @@ func RunMux(s *simrt.Sim, prof MuxProfile) *Result {
 		return finish()
 	}
 	w.phase = 1
+	w.fairStart = s.Now()
 	s.SetFair(true)
+	// first let every pending session-list update be applied while nothing new is established,
+	// then compare what the client connection may dial with what is registered (C11)
+	if !w.shutDown {
+		w.noHeal = true
+		w.net.SetRefuse(w.peerAddr, true)
+		w.settle(12*time.Second, func() bool { return false })
+		w.checkEndpoints("after the churn, before healing")
+		w.noHeal = false
+	}
 	// heal: faults stop, the peer is reachable and accepts
 	w.net.SetRefuse(w.peerAddr, false)
 	for _, p := range w.net.Pairs() {
@@ -548,6 +621,22 @@ func RunMux(s *simrt.Sim, prof MuxProfile) *Result {
 	return finish()
 }
 
+// checkEndpoints: once every session-list update has been applied, the endpoints the client
+// connection may dial are exactly the registered sessions, and CanMakeCalls agrees.
+func (w *MuxWorld) checkEndpoints(when string) {
+	ids, _, _ := w.proxySessions()
+	eps := grpcutil.VsimEndpoints(w.mcc)
+	if fmt.Sprint(ids) != fmt.Sprint(eps) {
+		w.violate("C11", "stale-endpoints", "%s: registered sessions %v but the client connection may dial %v", when, ids, eps)
+	}
+	var canCall, ran bool
+	w.s.Spawn("inspect-cancall", func() { canCall = w.mcc.CanMakeCalls(); ran = true })
+	w.settle(5*time.Second, func() bool { return ran })
+	if ran && canCall != (len(ids) > 0) {
+		w.violate("C11", "can-make-calls", "%s: CanMakeCalls()=%v with registered sessions %v", when, canCall, ids)
+	}
+}
+
 // checkAvail runs CanAcceptConnections in a task (it takes the semaphore).
 func (w *MuxWorld) checkAvail() {
 	var avail, ran bool
@@ -592,12 +681,14 @@ func (w *MuxWorld) rpcPhase(tags map[string]string) {
 			continue
 		}
 		if r.err != nil {
-			w.violate("C11", "rpc-failed-with-live-sessions", "rpc #%d failed (%v) although sessions %v were registered and open", r.id, r.err, live)
+			if w.allClean(live, tg) {
+				w.violate("C11", "rpc-failed-with-live-sessions", "rpc #%d failed (%v) although sessions %v were registered and open", r.id, r.err, live)
+			}
 		} else if !inSet(r.tag, live, tg) {
 			w.violate("C11", "served-by-unregistered-session", "rpc #%d was served by %s, which is not among the registered live sessions %v (%v)", r.id, r.tag, live, tg)
 		}
 	}
-	if w.cfg.MuxCount > 1 {
+	if _, liveNow, tgNow := w.proxySessions(); w.cfg.MuxCount > 1 && w.allClean(liveNow, tgNow) {
 		distinct := map[string]bool{}
 		for _, r := range w.rpcs[len(w.rpcs)-4*w.cfg.MuxCount:] {
 			if r.err == nil {
@@ -645,7 +736,9 @@ func (w *MuxWorld) rpcPhase(tags map[string]string) {
 			continue
 		}
 		if len(live2) > 0 {
-			if r.err != nil {
+			if r.err != nil && !w.allClean(live2, tg2) {
+				// a survivor over a disturbed connection may still be recovering
+			} else if r.err != nil {
 				w.violate("C11", "no-failover", "after session %s died, rpc #%d failed (%v) although sessions %v survive", victim.tag, r.id, r.err, live2)
 			} else if !inSet(r.tag, live2, tg2) {
 				w.violate("C11", "served-by-dead-session", "rpc #%d was served by %s, not among the surviving sessions %v", r.id, r.tag, live2)
@@ -670,7 +763,9 @@ func (w *MuxWorld) rpcPhase(tags map[string]string) {
 	}
 	r := w.quiescentRPC()
 	if r.done {
-		if r.err != nil {
+		if r.err != nil && !w.allClean(live3, tg3) {
+			// recovering transport
+		} else if r.err != nil {
 			w.violate("C11", "no-resume", "a new session %v appeared but rpc #%d still fails: %v", live3, r.id, r.err)
 		} else if !inSet(r.tag, live3, tg3) {
 			_, live4, tg4 := w.proxySessions()
